@@ -28,6 +28,13 @@ Modelling decisions (all stated in the evidence `explanation` as well):
       component); the sanitiser's `return` must be unreachable.  A violation
       needs a path without uninterpreted decisions (or a concrete witness path
       evaluated end to end); otherwise the clause refuses.
+    - C19.g: the guards of C19.b examine the components; the join must consume
+      the very same text.  Identity shapes hold structurally; otherwise the
+      sanitiser is run on accepted Uri-Paths that a text operation (NFKC,
+      percent-decoding, strip, replace, codec round trip ...) turns into path
+      syntax, with the checker's own models of those operations, and the
+      returned path is computed lexically.  A witness outside the root (or
+      with a '..' component) is a violation; no witness is a refusal.
     - C19.c: the constructor's permission parameter `write` is False (its
       default) / None / 0 and every attribute __init__ computes from it
       (self.write, a complement flag, a mode string ...) holds the value
@@ -72,7 +79,12 @@ R = Rules(
         "contains a component with '/', the component '.', the component '..', or an empty leading component "
         "followed by another one (absolute join) -- whether the rejection is spelled with any()/all(), loops, "
         "membership tests, helper predicates, tests on the joined string or containment of the result in "
-        "self.root; (c) with the constructor's write-permission parameter False/None/0 (every attribute __init__ derives "
+        "self.root; (g) the text joined under the root is the text those guards examined: the components reach the join "
+        "through identity operations only (str, os.fspath, tuple/list, Path constructors, single-assignment locals); any other "
+        "operation between the checks and the join (Unicode normalisation, percent-decoding, strip/replace/split, a codec round "
+        "trip ...) is executed by the checker's own models on accepted Uri-Paths that are one text operation away from path "
+        "syntax, and a returned path with a '..' component or outside the root refutes the clause (no witness: the clause "
+        "refuses, a finite sample proves nothing); (c) with the constructor's write-permission parameter False/None/0 (every attribute __init__ derives "
         "from it holding the corresponding value) no mutating sink (including those in helpers, closures, lambdas, "
         "module-level helpers, methods handed over as callables, and behind decorators) is reachable, the exits after the "
         "permission was consulted answer 4.03, and the attributes holding it are only assigned in __init__; (f) with an empty Uri-Path no mutating sink "
@@ -82,7 +94,7 @@ R = Rules(
         "start = number*size; (e) the sanitiser's only escapes are 4.00 renderable errors, the trailing-slash "
         "errors are 4.00, and when the first file-system operation of a request is a stat/unlink that fails with "
         "FileNotFoundError the request ends in a 4.04/4.12 answer (symbolic execution with that failure injected). "
-        "Paper step: with (a)-(b) every path handed to the operating system is root, or root joined with a "
+        "Paper step: with (a), (b) and (g) every path handed to the operating system is root, or root joined with a "
         "relative string none of whose components is '.', '..' or contains '/', hence lexically below root. "
         "Not decided: symlinks inside the root, races with other processes, NUL bytes (rejected by the OS "
         "layer with ValueError before any access)."
@@ -741,9 +753,10 @@ def _const_str(e):
 class Sanitiser:
     """Shape of request_to_localpath: result R = self.root / J, J = "/".join(P), P = <request>.opt.uri_path."""
 
-    def __init__(self, ctx):
+    def __init__(self, ctx, strict=True):
         prog = ctx.prog
         self.ctx = ctx
+        self.strict = strict  # False: a return whose value is not one of the identity shapes gets the shape None (see C19.g)
         self.prog = prog
         self.fi = fi = prog.func(FS + "." + SANITISER)
         self.cfg = cfg_of(fi)
@@ -836,13 +849,19 @@ class Sanitiser:
                         ext = bb["c"] if bb is not None else None
                     if isinstance(ext, ast.Name) and ext.id == c and len(writes_to_name(fn, c)) == 1:
                         found = ("joinpath", loop.iter)
-        ctx.need(found is not None, "returned value %s is not the root joined with the components (self.root / '/'.join(P), self.root.joinpath(*P), Path(self.root, *P), ...)"
-                 % stmt_text(Rx, 80))
+        if found is None and not self.strict:
+            return None
+        ctx.need(found is not None, self.unrecognised(v))
         kind_, Psrc = found
         P = resolve_local(fn, Psrc)
         while isinstance(P, ast.Call) and chain(P.func) in ("list", "tuple") and len(P.args) == 1 and not P.keywords:
             P = resolve_local(fn, P.args[0])
         return {"R": Rx, "P": P, "Psrc": Psrc, "kind": kind_}
+
+
+    def unrecognised(self, v):
+        return ("returned value %s is not the root joined with the components (self.root / '/'.join(P), self.root.joinpath(*P), Path(self.root, *P), ...)"
+                % stmt_text(self._strip(v)[0], 80))
 
 
 def _int_const(e):
@@ -944,13 +963,21 @@ def b(ctx):
     reached on a path none of whose decisions the executor failed to interpret -- or, failing that, when the
     checker's own evaluator carries a concrete witness path (e.g. ('', 'etc', 'hostname')) through to the return;
     otherwise the clause refuses (analysis error)."""
-    S = Sanitiser(ctx)
+    S = Sanitiser(ctx, strict=False)
     fi, cfg = S.fi, S.cfg
     prog = ctx.prog
     ci = prog.cls(FS)
     uri_chain = "%s.opt.uri_path" % S.req
     for r in S.rets:
         sh = S.shapes[r.id]
+        if sh is None:
+            # the components pass through an operation that is not the identity on their way into the join: the four
+            # exclusions say nothing about what is joined.  C19.g owns that case; when it has a witness the violation is
+            # reported there, otherwise this clause refuses as it always did.
+            escapes, _ = _g_witness_run(prog, ci, S, r)
+            ctx.need(bool(escapes), S.unrecognised(r.ast.value))
+            ctx.note("return `%s`: not an identity join, decided by C19.g" % stmt_text(r.ast.value, 80))
+            continue
         ctx.ob("the joined components are the request's Uri-Path", chain(sh["P"]) == uri_chain and not writes_to_name(fi.node, S.req),
                fi, r.ast, detail="components: %s" % stmt_text(sh["P"], 80))
         for tag, desc in EXCLUSIONS:
@@ -975,6 +1002,110 @@ def b(ctx):
                 if tag == "abs":
                     witness += "; e.g. Uri-Path ('', 'etc', 'hostname') joins to '/etc/hostname' and self.root / '/etc/hostname' is absolute"
             ctx.ob(desc, not certain, fi, r.ast, detail=witness)
+
+
+# ---------------------------------------------------------------------------
+# C19.g: what the guards examined is what is joined
+#
+# C19.b decides that a Uri-Path with a harmful component never reaches the join.  That is a statement about the
+# components AS THE GUARDS SEE THEM; it carries over to the path handed to the operating system only if the text that is
+# joined under the root is the text that was examined.  The identity shapes of Sanitiser._shape (the components reach
+# "/".join / joinpath / Path(...) behind nothing but str(), os.fspath(), tuple(), list(), Path(), single-assignment
+# locals) establish that structurally.  Any other operation between the examination and the join (Unicode
+# normalisation, percent-decoding, case folding, strip(), replace(), an ASCII round trip, ...) maps *accepted*
+# components to new text, and the new text may be path syntax again.
+#
+# Decision: identity shape -> holds.  Otherwise the sanitiser is executed (symbolic executor of the kit, the checker's
+# own models of the str methods / codecs / unicodedata.normalize / urllib.parse.unquote) on concrete Uri-Paths each of
+# whose components is accepted by the four exclusions but is *one text operation away* from path syntax, and the
+# returned path is computed lexically: a result with a '..' component, or not below the root, refutes the clause with
+# that witness.  A non-identity shape for which no witness escapes is NOT accepted (a finite sample proves nothing):
+# the clause refuses, as C19.b did before.
+
+# components accepted by (i)-(iv) that common text operations turn into '..', '.', or something containing '/'
+_NEAR_SYNTAX = [
+    "\u2025", "\uff0e\uff0e", "\u2024\u2024", "\uff0e", "\uff0fetc", "a\uff0f\u2025\uff0f\u2025\uff0fb",  # compatibility forms (NFKC / NFKD)
+    "%2e%2e", "%2E%2E", "%2e.", "%2fetc", "a%2f..%2f..%2fb", "%252e%252e",                          # percent-encoding
+    " ..", ".. ", " .. ", "\t..\n", "..\u00a0", "\u3000..",                                          # white space around
+    "..\u00e9", "\u00e9..", ".\u00e9.", ".\u200b.", "..\x00", "\x00..", ".\x00.",                    # characters a filter / codec drops
+    "a\\..\\..\\b", "\\etc", "..\\",                                                                # the other separator
+    "...", "....", ". .", "..;x", "..?x", "..#x", "..:x", "x:..",                                   # truncation / collapsing
+]
+
+
+def _g_witnesses(fnode):
+    comps = list(_NEAR_SYNTAX)
+    # string constants of the sanitiser itself: what it strips, replaces or splits at
+    for n in ast.walk(fnode):
+        c = _const_str(n) if isinstance(n, ast.Constant) else None
+        if c and len(c) <= 4 and c not in ("/", ".", ".."):
+            comps += [".." + c, c + "..", c + ".." + c, "a" + c + ".." + c + ".." + c + "b", c + "etc", "." + c + "."]
+    seen, out = set(), []
+    for c in comps:
+        if c in ("", ".", "..") or "/" in c or c in seen:
+            continue  # not accepted by the exclusions: C19.b's business
+        seen.add(c)
+        out += [(c, "x"), ("s", c), (c,)]
+    return out
+
+
+def _g_witness_run(prog, ci, S, r):
+    """([(Uri-Path, returned path)] that leave the root, number of witnesses whose returned path was computed)"""
+    from pathlib import PurePosixPath
+    fi = S.fi
+    uri_chain = "%s.opt.uri_path" % S.req
+    me = _self_name(fi)
+    is_root = lambda e: me is not None and chain(e) == me + ".root"
+    root = PurePosixPath(kit.LEX_ROOT)
+    escapes, computed = [], 0
+    for w in _g_witnesses(fi.node):
+        bind = lambda c_, ch=uri_chain: kit.N("$P") if c_ == ch else None
+        sc = kit.Scenario("g@%r" % (w,), bind=bind, seqs={"$P": [("one", kit.K(x, taint=True)) for x in w]}, cenv={"$P": w},
+                          tainted={"$P"}, contain={"lex": True, "res": True}, taint_mutated=True, taint_through_calls=True,
+                          describe="Uri-Path %r" % (w,))
+        sx = kit.SX(prog, ci, sc)
+        sx.run(fi)
+        for st, depth, stack in sx.visits.get((fi.qn, r.id), []):
+            if depth != 0 or st.uncertain() or "via_exc" in st.flags:
+                continue
+            val = sx.peek(fi, r.id, r.ast.value, st)
+            if val is None:
+                continue
+            try:
+                res = kit.lex_value(val, is_root, sc.cenv)
+            except (kit.Unk, kit.CRaise):
+                continue
+            if isinstance(res, str):
+                res = PurePosixPath(res)
+            if not isinstance(res, PurePosixPath):
+                continue
+            computed += 1
+            below = res.parts[: len(root.parts)] == root.parts
+            if not below or ".." in res.parts[len(root.parts):]:
+                shown = str(res).replace(kit.LEX_ROOT, "<root>", 1) if below else str(res)
+                escapes.append((w, shown))
+    return escapes, computed
+
+
+@R.clause("C19.g", "the text joined under the root is the text the guards examined: no operation between the checks and the join turns an accepted component into path syntax")
+def g(ctx):
+    S = Sanitiser(ctx, strict=False)
+    prog = ctx.prog
+    ci = prog.cls(FS)
+    for r in S.rets:
+        desc = "(v) the components are joined as they were examined"
+        if S.shapes[r.id] is not None:
+            ctx.ob(desc, True, S.fi, r.ast, detail="identity shape (%s)" % S.shapes[r.id]["kind"])
+            continue
+        escapes, computed = _g_witness_run(prog, ci, S, r)
+        if not escapes:
+            raise AnalysisError("request_to_localpath: %s; none of %d accepted Uri-Paths evaluated through it leaves the root, which proves nothing: "
+                                "the operations applied between the checks and the join are outside the rule's vocabulary"
+                                % (S.unrecognised(r.ast.value), computed))
+        w, res = escapes[0]
+        ctx.ob(desc, False, S.fi, r.ast,
+               detail="Uri-Path %s passes every check and is returned as %s (%d of %d evaluated witnesses leave the root): the value joined is not the value examined"
+               % (ascii(w), ascii(res), len(escapes), computed))
 
 
 # ---------------------------------------------------------------------------
@@ -1771,3 +1902,14 @@ R.seed("C19.d", F, "aiocoap.optiontypes.BlockOption.BlockwiseTuple(\n           
        "block_in._replace(more=len(data) >= block_in.size)", "descriptor copied with _replace, more set on an exactly filled last block")
 R.seed("C19.d", F, "f.seek(block_in.start)", "f.seek(block_in.start, 1)", "offset relative to the current position")
 R.seed("C19.b", F, "        return self.root / \"/\".join(path)\n", "        return Path(self.root, *path[1:])\n", "first component dropped from the joined path")
+# C19.g: an operation between the checks and the join (each seed keeps every guard intact, so C19.b's scenarios stay unreachable)
+R.seed("C19.g", F, "        return self.root / \"/\".join(path)\n", "        return self.root / unicodedata.normalize(\"NFKC\", \"/\".join(path))\n",
+       "compatibility normalisation after the checks: U+2025 / U+FF0E U+FF0E fold to '..', U+FF0F to '/'")
+R.seed("C19.g", F, "        return self.root / \"/\".join(path)\n", "        from urllib.parse import unquote as _pct\n        return self.root / _pct(\"/\".join(path))\n",
+       "percent-decoding after the checks (under an import alias): %2e%2e becomes '..'")
+R.seed("C19.g", F, "        return self.root / \"/\".join(path)\n", "        return self.root / \"/\".join(path).replace(\"\\\\\", \"/\")\n",
+       "backslashes turned into separators after the checks")
+R.seed("C19.g", F, "        return self.root / \"/\".join(path)\n", "        joined = \"/\".join(path)\n        joined = joined.strip()\n        return self.root / joined\n",
+       "white space stripped from the joined string after the checks: ' ..' becomes '..'")
+R.seed("C19.g", F, "        return self.root / \"/\".join(path)\n", "        return Path(str(self.root / \"/\".join(path)).encode(\"ascii\", \"ignore\").decode(\"ascii\"))\n",
+       "non-ASCII characters dropped from the finished path: '..\\u00e9' becomes '..'")
